@@ -12,6 +12,7 @@
 #include <script/interpreter.h>
 #include <script/script.h>
 #include <script/sigcache.h>
+#include <script/signingprovider.h>
 #include <test/util/setup_common.h>
 #include <uint256.h>
 #include <util/chaintype.h>
@@ -91,6 +92,11 @@ std::vector<unsigned char> negate_s(const std::vector<unsigned char>& der)
 //   4 <A> CHECKSIGVERIFY <B> CHECKSIG spent with A's signature twice (always invalid; same sighash and signature, other key)
 //   5 two inputs: a good P2PK and a corrupted one (always invalid)
 //   6 P2WPKH, good witness                     7 the same transaction (same txid) with a corrupted witness signature (invalid iff WITNESS)
+//   8 P2TR key path with a garbage 64-byte signature (invalid iff TAPROOT)
+//   9 legacy OP_CODESEPARATOR <A> OP_CHECKSIG, good signature (invalid iff CONST_SCRIPTCODE)
+//  10 P2TR script path, OP_SUCCESS leaf (invalid iff TAPROOT and DISCOURAGE_OP_SUCCESS)
+//  11 P2TR script path, leaf version 0xc2 (invalid iff TAPROOT and DISCOURAGE_UPGRADABLE_TAPROOT_VERSION)
+//  12 P2TR script path, <33-byte key> OP_CHECKSIG with a non-empty signature (invalid iff TAPROOT and DISCOURAGE_UPGRADABLE_PUBKEYTYPE)
 struct Pool {
     std::vector<CTransactionRef> txs;
     std::unique_ptr<CCoinsViewCache> view;
@@ -153,6 +159,37 @@ struct Pool {
             txs.push_back(MakeTransactionRef(m));
             m.vin[0].scriptWitness.stack = {sign(m, 0, wpkh_code, 1, SigVersion::WITNESS_V0, 2), ToByteVector(pa)};
             txs.push_back(MakeTransactionRef(m));
+        }
+        {
+            const CScript p2tr = CScript() << OP_1 << ToByteVector(XOnlyPubKey(pa));
+            CMutableTransaction m = base_tx({fund(p2tr)});
+            m.vin[0].scriptWitness.stack = {std::vector<unsigned char>(64, 0x42)};
+            txs.push_back(MakeTransactionRef(m));
+        }
+        {
+            const CScript cs = CScript() << OP_CODESEPARATOR << ToByteVector(pa) << OP_CHECKSIG;
+            CMutableTransaction m = base_tx({fund(cs)});
+            m.vin[0].scriptSig = CScript() << sign(m, 0, p2pk, 1, SigVersion::BASE, 0);
+            txs.push_back(MakeTransactionRef(m));
+        }
+        auto script_path = [&](const std::vector<unsigned char>& leaf, int leaf_version, std::vector<std::vector<unsigned char>> args) {
+            TaprootBuilder builder;
+            builder.Add(0, leaf, leaf_version);
+            builder.Finalize(XOnlyPubKey(pa));
+            const CScript spk = CScript() << OP_1 << ToByteVector(builder.GetOutput());
+            const auto spend = builder.GetSpendData();
+            const auto& ctrl = *spend.scripts.at({leaf, leaf_version}).begin();
+            CMutableTransaction m = base_tx({fund(spk)});
+            args.push_back(leaf);
+            args.push_back(ctrl);
+            m.vin[0].scriptWitness.stack = args;
+            txs.push_back(MakeTransactionRef(m));
+        };
+        script_path({0x50}, 0xc0, {});
+        script_path({0x51}, 0xc2, {});
+        {
+            CScript leaf = CScript() << ToByteVector(pa) << OP_CHECKSIG;
+            script_path(std::vector<unsigned char>(leaf.begin(), leaf.end()), 0xc0, {{0x01}});
         }
     }
 };
